@@ -50,6 +50,24 @@ PROPS = {
                         "char::is_alphanumeric / is_whitespace as tabulated in Text.lean (exact on ASCII and on the non-ASCII ranges the generators use)",
                         "the result of each propagated parse call reaches the constructed message (translator checks `?` and absence of `let _`; the oracle checks the rest)"],
     },
+    "C11": {
+        "streams": ["c11"],
+        "driver": True,
+        "extractors": ["T5"],
+        "instances": lambda gen: len(gen.get("tables", {}).get("date_sites", [])),
+        "exhaustive": False,
+        "rule": "quick: every yy x {month 00,01,02,03,04,06,09,11,12,13,99} x {day 00,01,28..32,99} plus 3000 random six-digit strings, "
+                "every 7th HHMM string, every HH x {MM 00,01,30,59,60,99} as time and as +/- offset, plus signed / spaced / lettered / "
+                "non-ASCII spellings; thorough: exhaustive 10^6 six-digit strings through 15 date-bearing fields, 10^4 HHMM, 2x10^4 "
+                "offsets. Each case compares acceptance, meaning (date in the parsed value), MT serialisation and JSON round trip with an "
+                "independent days-in-month oracle, and the date/time primitives with the compiled Lean model. Non-trivial = a valid "
+                "calendar date or a non-digit spelling; distinct = (field, string)",
+        "modelled": "parse_date_yymmdd, parse_time_hhmm, the 13C/13D offset check, both date printers and the 13D JSON date codec; "
+                    "date construction sites regenerated (T5)",
+        "trusted_base": [KERNEL, TRANSLATOR, HARNESS, "hand model SwiftMT/Calendar.lean (validated exhaustively in the thorough tier)"],
+        "assumptions": ["NaiveDate::from_ymd_opt / NaiveTime::from_hms_opt accept exactly Gregorian dates / 24h clock times (validated exhaustively for 1950-2049)",
+                        "chrono's %y%m%d and %H%M print two zero-padded digits per component"],
+    },
     "C09": {
         "streams": ["c09"],
         "driver": False,
